@@ -128,6 +128,7 @@ structure Cfg where
   reportBeforeFlushCleanup : Bool   -- the Flush path reports the failure counters before removing contexts (repaired)
   flushInvalidatedLoggers : Bool := true   -- sinks of loggers marked for removal (not erased yet) are still flushed (repaired, F12)
   cleanupKeepsUnreported : Bool := true   -- the clean-up leaves a context whose failure counter is not reported yet (repaired, F24)
+  replayCatchesPerEvent : Bool := true   -- a backtrace replay catches a sink exception per stored event, reports it and goes on (repaired, F26)
   deriving Repr
 
 structure BSt where
